@@ -45,7 +45,7 @@ type dsShape struct {
 	Labeled bool   // second file given as label=path
 	Blocks  string // "a", "ab" (goos a then goos b), "notes" (goos a note x, goos a note y)
 	Benches int    // 1..3 of A, B/k=1, B/k=2-4
-	Units   string // "ns", "ns+B", "ns+x" (x/op with assume=exact), "ns+alt" (second unit alternates between lines)
+	Units   string // "ns", "ns+B", "ns+x" (x/op with assume=exact), "ns+alt" (second unit alternates between lines), "ns|sec" / "sec|ns" (one file writes ns/op, the other sec/op)
 	Reps    int
 	Pattern string // "shifted", "equal", "zero", "negative"
 	Missing bool   // the last benchmark is missing from the second file
@@ -62,7 +62,7 @@ var dsCollideNames = []string{"A", "B/k=11", "B1/k=1"}
 
 func (s dsShape) build() dataset {
 	var ds dataset
-	units := map[string][]string{"ns": {"ns/op"}, "ns+B": {"ns/op", "B/op"}, "ns+x": {"ns/op", "x/op"}, "ns+alt": {"ns/op", "B/op"}}[s.Units]
+	units := map[string][]string{"ns": {"ns/op"}, "ns+B": {"ns/op", "B/op"}, "ns+x": {"ns/op", "x/op"}, "ns+alt": {"ns/op", "B/op"}, "ns|sec": {"ns/op"}, "sec|ns": {"ns/op"}}[s.Units]
 	if s.Units == "ns+x" {
 		ds.UnitMeta = []string{"Unit x/op assume=exact"}
 	}
@@ -97,6 +97,11 @@ func (s dsShape) build() dataset {
 						continue
 					}
 					ln := dsLine{Name: dsBenchNames[ni], Units: units}
+					// one metric under two spellings: one file writes ns/op, the other writes the base unit sec/op
+					inSec := (s.Units == "ns|sec" && fi == 1) || (s.Units == "sec|ns" && fi == 0)
+					if inSec {
+						ln.Units = []string{"sec/op"}
+					}
 					if s.Collide {
 						ln.Name = dsCollideNames[ni]
 					}
@@ -122,6 +127,9 @@ func (s dsShape) build() dataset {
 						}
 						if units[ui] == "x/op" {
 							v = base + float64(fi) // exact: the same in every repetition
+						}
+						if inSec {
+							v *= 1e-9
 						}
 						ln.Vals = append(ln.Vals, v)
 					}
@@ -387,6 +395,8 @@ func c14Shapes(thorough bool) []dsShape {
 		{Files: 2, Blocks: "ab", Benches: 2, Units: "ns+B", Reps: 2, Pattern: "shifted", Missing: true, MissingFirst: true},
 		{Files: 2, Blocks: "a", Benches: 1, Units: "ns+alt", Reps: 5, Pattern: "shifted"},
 		{Files: 1, Blocks: "notes", Benches: 1, Units: "ns+alt", Reps: 2, Pattern: "equal"},
+		{Files: 2, Blocks: "a", Benches: 2, Units: "ns|sec", Reps: 5, Pattern: "shifted"},
+		{Files: 2, Blocks: "ab", Benches: 2, Units: "sec|ns", Reps: 2, Pattern: "shifted"},
 	}
 	var all []dsShape
 	for _, files := range []int{1, 2, 3} {
